@@ -90,6 +90,15 @@ func main() {
 				b++ // (with 5 and 7 workers one preemption is already 3 million executions, more than an hour each)
 			}
 		}
+		if strings.HasPrefix(n, "render-progress/") {
+			// one preemption (two in the thorough tier), capped: the channel traffic of a render is long
+			rb := 1
+			if r.Thorough() {
+				rb = 2
+			}
+			jobs = append(jobs, schedrun.Job{Scenario: n, Bound: rb, MaxExecs: 300000})
+			continue
+		}
 		if strings.HasPrefix(n, "heightmap-disc/") {
 			// capped at a million executions each (reported as not exhaustive when the cap is reached)
 			jobs = append(jobs, schedrun.Job{Scenario: n, Bound: b, MaxExecs: 1000000})
